@@ -214,6 +214,11 @@ func genJoin(engine, prop string, r *simrt.SplitMix) *JoinSc {
 					b.Lens[i] = 0
 				}
 
+				// now and then a slice many times longer than JoinSize (its length is unbounded)
+				if r.Intn(12) == 0 {
+					b.Lens[i] = pick(r, 3*sc.JoinSize, 33*sc.JoinSize, between(r, 3*sc.JoinSize, 70*sc.JoinSize), 64*sc.JoinSize+1, 1000)
+				}
+
 				// C08 only (elements are no longer unique): send an oversize slice object twice
 				// (copy mode only: in no-copy mode the slice becomes the consumer's)
 				if prop == "C08" && !sc.NoCopy && r.Intn(6) == 0 {
